@@ -1,20 +1,31 @@
-"""C14 -- writing then reading an instrument file returns the same map (Zygo .dat and the Interferogram save/load pair)."""
+"""C14 -- writing then reading an instrument file returns the same map (Zygo .dat, Code V grid INT, the Interferogram save/load pair)."""
 import warnings
 
 ID = 'C14'
 FILES = ['prysm/io.py', 'prysm/interferogram.py']
-FUNCTIONS = ['io.write_zygo_dat', 'io.read_zygo_dat', 'io.read_zygo_metadata/_zygo_metadata_helper', 'Interferogram.save_zygo_dat/from_zygo_dat']
+FUNCTIONS = ['io.write_zygo_dat', 'io.read_zygo_dat', 'io.read_zygo_metadata/_zygo_metadata_helper', 'Interferogram.save_zygo_dat/from_zygo_dat',
+             'io.write_codev_gridint', 'io.read_codev_gridint']
 STUBS = ['file transport: header fields go through the real struct.pack/unpack; the int32 data block is carried losslessly as the exact (symbolic) integers '
          'that were written (tobytes / frombuffer / file write / open / read)', 'astype(int32) -> truncate toward zero, wrap modulo 2^32; NaN -> arbitrary value',
-         'boolean-mask assignment decides each comparison with the solver']
+         'boolean-mask assignment decides each comparison with the solver',
+         'text transport (Code V): savetxt / f-string formatting render a number as a placeholder token that float() / int() / fromstring parse back to '
+         'the same value (contract: repr of a float and %d of an integer round-trip exactly); all other string handling of the reader (find, split, '
+         'slicing, header tokens) runs as written on the real text; pathlib.Path(file).read_text() reads the in-memory file',
+         'astype(int16) -> truncate toward zero, wrap modulo 2^16']
 EXPLANATION = ('Heights are field-level symbols (|h| <= 10^4 nm), NaN patterns are enumerated, dx and wavelength are concrete per configuration (they go '
                'through struct.pack). The writer and reader run on an in-memory file; obligations: shape, orientation (every written symbol comes back at '
                'its own index), NaNs in the same places, |read - written| <= one quantisation step (plus the float32 rounding of the header wavelength), '
-               'dx and wavelength to header precision. Truncation: the file is cut at sample boundaries, inside a sample and inside the header.')
-BOUNDS = {'quick': 'shapes 1x3, 3x1, 2x3, 3x2, 3x3 with 4 NaN patterns; cuts at every sample boundary of a 2x3 file, two mid-sample cuts, one header cut',
-          'thorough': 'shapes up to 4x5; cuts at every byte of the data block of a 2x3 file'}
-OUTSIDE = ('Code V grid INT text files (write_codev_gridint / read_codev_gridint): their content is formatted and parsed as text (savetxt, fromstring, header '
-           'tokens) -- string-level behaviour this engine does not model; read_zygo_datx (HDF5), Zygo ASCII, multi-bucket intensity frames')
+               'dx and wavelength to header precision. Truncation: the file is cut at sample boundaries, inside a sample and inside the header. '
+               'Code V grid INT: the map is a * r with a = max|h| symbolic and the ratios r symbolic (position and sign of the extreme sample enumerated), '
+               'the step is read from the SSZ the writer put in the header; shape, orientation, NaN placement, |read - written| <= one step; the text '
+               'is cut after every number of a 2x3 file: rejected, or read with the missing samples invalid and a warning.')
+BOUNDS = {'quick': 'Zygo: shapes 1x3, 3x1, 2x3, 3x2, 3x3 with 4 NaN patterns; cuts at every sample boundary of a 2x3 file, two mid-sample cuts, one header '
+                   'cut. Code V: shapes 1x3, 3x1, 2x3, 3x2, 2x2 with 2 NaN patterns, extreme sample first/last valid cell, a in [1000*2^-52, 10^4] nm '
+                   'symbolic plus two concrete amplitudes below the all-zero threshold, the zero map, two tie maps; cuts after each of the 6 numbers',
+          'thorough': 'Zygo: shapes up to 4x5; cuts at every byte of the data block of a 2x3 file. Code V: shapes up to 3x3, 2x4, 4x2, extreme sample at '
+                      'every valid cell with both signs'}
+OUTSIDE = ('Code V: the digits of a number (a cut inside a number, which a text format cannot distinguish from a shorter number), comment lines and '
+           'titles containing "!", all-NaN maps, |h| > 10^4 nm; read_zygo_datx (HDF5), Zygo ASCII, multi-bucket intensity frames')
 NDERIVED = 120
 MAX_PATHS = 64
 CFG_TIMEOUT = {'quick': 900, 'thorough': 3600}
@@ -42,11 +53,41 @@ def configs(tier):
     for c in cuts:
         out.append({'name': 'zygo-truncated-at-%d' % c, 'kind': 'trunc', 'shape': [2, 3], 'cut': c})
     out.append({'name': 'zygo-truncated-in-header', 'kind': 'trunc_header', 'shape': [2, 3], 'cut': 500})
+    # Code V grid INT (text).  Without loss of generality a map with a non-zero sample is h = a * r with a = max|h| > 0, r in (-1, 1) and
+    # r = +-1 at one sample (position and sign enumerated; ties of the extreme value as separate configurations); a is symbolic over [1000 * 2^-52, 10^4] nm (above the writer's "all zero"
+    # threshold), or one of two concrete values below that threshold; 'allzero' is the constant-zero map
+    cvshapes = [(1, 3), (3, 1), (2, 3), (3, 2), (2, 2)] + ([] if q else [(3, 3), (2, 4), (4, 2)])
+    for shp in cvshapes:
+        for pat in ('none', 'corner'):
+            cells = [(i, j) for i in range(shp[0]) for j in range(shp[1]) if (i, j) not in nan_cells(pat, shp)]
+            peaks = [cells[0], cells[-1]] if q else cells
+            for pk in peaks:
+                for sgn in (1, -1):
+                    if q and (sgn == 1) != (pk == cells[0]) and shp != (2, 3):
+                        continue
+                    out.append({'name': 'codev-roundtrip-%dx%d-%s-peak%d%d%s' % (shp[0], shp[1], pat, pk[0], pk[1], '+' if sgn > 0 else '-'),
+                                'kind': 'cv', 'shape': list(shp), 'nan': pat, 'vals': 'free', 'peak': list(pk), 'sign': sgn})
+    # ties: a second sample with the opposite extreme value
+    out.append({'name': 'codev-roundtrip-2x3-tie', 'kind': 'cv', 'shape': [2, 3], 'nan': 'none', 'vals': 'free', 'peak': [0, 1], 'sign': 1, 'tie': [1, 2]})
+    out.append({'name': 'codev-roundtrip-3x1-tie', 'kind': 'cv', 'shape': [3, 1], 'nan': 'none', 'vals': 'free', 'peak': [2, 0], 'sign': -1, 'tie': [0, 0]})
+    for tiny in ('2^-60', '15/16 of the threshold'):
+        out.append({'name': 'codev-roundtrip-2x3-tiny-%s' % tiny.split()[0], 'kind': 'cv', 'shape': [2, 3], 'nan': 'none', 'vals': 'tiny', 'tiny': tiny,
+                    'peak': [0, 1], 'sign': -1})
+    out.append({'name': 'codev-roundtrip-2x2-allzero', 'kind': 'cv', 'shape': [2, 2], 'nan': 'none', 'vals': 'allzero', 'peak': [0, 0], 'sign': 1})
+    for kcut in range(0, 6):
+        out.append({'name': 'codev-truncated-after-%d-numbers' % kcut, 'kind': 'cv_trunc', 'shape': [2, 3], 'cut': kcut, 'nan': 'none', 'vals': 'free',
+                    'peak': [1, 0], 'sign': 1})
     return out
 
 
 def params(cfg):
     m, n = cfg['shape']
+    if cfg['kind'] in ('cv', 'cv_trunc'):
+        from fractions import Fraction
+        ps = [('r_%d_%d' % (i, j), {'gt': -1, 'lt': 1}) for i in range(m) for j in range(n) if [i, j] != cfg['peak'] and [i, j] != cfg.get('tie')]
+        if cfg['vals'] == 'free':
+            ps.append(('a', {'lo': Fraction(1000, 2 ** 52), 'hi': 10000}))
+        return ps
     return [('h_%d_%d' % (i, j), {'lo': -10000, 'hi': 10000}) for i in range(m) for j in range(n)]
 
 
@@ -54,13 +95,26 @@ def build(H, cfg):
     np = H.np
     m, n = cfg['shape']
     ph = H.zeros((m, n), complex_=False)
-    for i in range(m):
-        for j in range(n):
-            ph[i, j] = H.param('h_%d_%d' % (i, j))
+    amp = None
+    if cfg['kind'] in ('cv', 'cv_trunc'):
+        v = cfg['vals']
+        if v == 'free':
+            amp = H.param('a')
+        elif v == 'tiny':
+            amp = H.frac(1000, 2 ** 60) if cfg['tiny'].startswith('2^') else H.frac(15 * 1000, 16 * 2 ** 52)
+        else:
+            amp = H.frac(0)
+        for i in range(m):
+            for j in range(n):
+                ph[i, j] = amp * (cfg['sign'] if [i, j] == cfg['peak'] else (-cfg['sign'] if [i, j] == cfg.get('tie') else H.param('r_%d_%d' % (i, j))))
+    else:
+        for i in range(m):
+            for j in range(n):
+                ph[i, j] = H.param('h_%d_%d' % (i, j))
     nanset = set(nan_cells(cfg.get('nan', 'none'), (m, n)))
     for (i, j) in nanset:
         ph[i, j] = H.nan
-    return ph, nanset
+    return ph, nanset, amp
 
 
 def run(cfg, H):
@@ -70,7 +124,7 @@ def run(cfg, H):
     m, n = cfg['shape']
     dx = H.frac(1, 4)
     wvl = H.frac(6328, 10000)
-    ph, nanset = build(H, cfg)
+    ph, nanset, amp = build(H, cfg)
     step = wvl / 1000000 / 32768 * 1000000000        # nm per count (phase_res 1 -> 32768 counts per wave)
     if k in ('roundtrip', 'ifg'):
         f = H.memfile()
@@ -112,6 +166,42 @@ def run(cfg, H):
                 H.eq('sample %d (complete in the file) is read as from the full file' % q_, flat_got[q_], flat_full[q_])
             else:
                 H.holds('sample %d (missing or cut) is marked invalid' % q_, bool(H.is_nan(flat_got[q_]) if H.mode == 'symbolic' else np.isnan(flat_got[q_])))
+    elif k in ('cv', 'cv_trunc'):
+        f = H.memfile('.int')
+        io.write_codev_gridint(ph, f)
+        txt = H.text_of(f)
+        lines = txt.split('\n')
+        toks = lines[1].split()
+        ssz = H.text_number(toks[toks.index('SSZ') + 1])
+        wvl = H.text_number(toks[toks.index('WVL') + 1])
+        if k == 'cv':
+            got, meta = io.read_codev_gridint(f)
+            # one count of the file: 1/SSZ waves of WVL microns
+            cstep = 1000 * wvl / ssz
+            if cstep < 0:
+                cstep = -cstep
+            _same_map(H, got, ph, nanset, (m, n), cstep, slack=H.frac(1, 10 ** 6), unit=(amp if cfg['vals'] == 'free' else None))
+        else:
+            import re
+            data0 = len(lines[0]) + len(lines[1]) + 2
+            ends = [data0 + mt.end() for mt in re.finditer(r'\S+', txt[data0:])]
+            cut = data0 if cfg['cut'] == 0 else ends[cfg['cut'] - 1]
+            g = H.truncate(f, cut)
+            with warnings.catch_warnings(record=True) as wlist:
+                warnings.simplefilter('always')
+                try:
+                    res = io.read_codev_gridint(g)
+                except Exception:   # noqa -- rejected: allowed
+                    res = None
+            H.value('cut file rejected', res is None)
+            if res is not None:
+                got = res[0]
+                H.holds('a warning is issued for the truncated file', len(wlist) > 0)
+                H.shape_is('truncated read keeps the shape', got, (m, n))
+                if tuple(np.shape(got)) == (m, n):
+                    flat = np.asarray(np.flipud(np.asarray(got, dtype=object) if H.mode == 'symbolic' else got)).reshape(-1)
+                    for q_ in range(cfg['cut'], m * n):
+                        H.holds('sample %d (missing) is marked invalid' % q_, bool(H.is_nan(flat[q_]) if H.mode == 'symbolic' else np.isnan(flat[q_])))
     elif k == 'trunc_header':
         f = H.memfile()
         io.write_zygo_dat(f, ph, dx, wvl)
@@ -124,7 +214,7 @@ def run(cfg, H):
         H.holds('a file cut inside its header is rejected with an exception', raised)
 
 
-def _same_map(H, got, ph, nanset, shape, step):
+def _same_map(H, got, ph, nanset, shape, step, slack=None, unit=None):
     np = H.np
     m, n = shape
     H.shape_is('shape survives', got, (m, n))
@@ -140,7 +230,11 @@ def _same_map(H, got, ph, nanset, shape, step):
                 H.holds('valid sample (%d,%d) stays valid' % (i, j), not isn)
                 if not isn:
                     w = ph[i, j]
+                    H.value('read-back value (%d,%d)' % (i, j), v)
                     # one count of the int32 format, plus the float32 rounding of the header's wavelength (2e-7 relative, |h| <= 1e4 nm)
-                    tol = step + H.frac(2, 1000)
+                    tol = step + (H.frac(2, 1000) if slack is None else slack)
+                    if unit is not None:
+                        # both sides divided by the (positive) amplitude of the map: keeps the obligation linear for the solver
+                        v, w, tol = v / unit, w / unit, step / unit + slack
                     H.le('read(%d,%d) <= written + one quantisation step' % (i, j), v, w + tol)
                     H.le('read(%d,%d) >= written - one quantisation step' % (i, j), w - tol, v)
